@@ -237,10 +237,10 @@ def parseNoCk {Mat} (A : KeyAlg Mat) (bs : Bytes) : Option Mat :=
   | some (m, []) => some m
   | _ => none
 
-/-- `PlainSecretParams::try_from_reader`: for v3/v4 a two-octet checksum (compared with the sum
-over the *re-serialised* material) follows and must end the input; other versions: nothing is
-read after the material and the rest is NOT checked -/
-def parseCk {Mat} (A : KeyAlg Mat) (ver : Byte) (bs : Bytes) : Option Mat :=
+/-- `PlainSecretParams::try_from_reader` as it was before the repair of D8e: for v3/v4 a two-octet
+checksum follows the material, is compared with the sum over the *re-serialised* material, and must
+end the input; other versions: nothing is read after the material and the rest is NOT checked -/
+def parseCkReencoded {Mat} (A : KeyAlg Mat) (ver : Byte) (bs : Bytes) : Option Mat :=
   match A.parse bs with
   | none => none
   | some (m, rest) =>
@@ -249,6 +249,25 @@ def parseCk {Mat} (A : KeyAlg Mat) (ver : Byte) (bs : Bytes) : Option Mat :=
       | [a, b] => if a.toNat * 256 + b.toNat = sum16 (A.ser m) then some m else none
       | _ => none
     else some m
+
+/-- `PlainSecretParams::try_from_reader` (D8e repaired): for v3/v4 the input is the material followed
+by a two-octet checksum *of the octets as they are stored*; the material must parse completely.
+Other versions: as before. -/
+def parseCkStored {Mat} (A : KeyAlg Mat) (ver : Byte) (bs : Bytes) : Option Mat :=
+  if isV3V4 ver then
+    if bs.length < Gen.plainChecksumLen then none else
+    let material := bs.take (bs.length - Gen.plainChecksumLen)
+    match A.parse material, bs.drop (bs.length - Gen.plainChecksumLen) with
+    | some (m, []), [a, b] => if a.toNat * 256 + b.toNat = sum16 material then some m else none
+    | _, _ => none
+  else
+    match A.parse bs with
+    | none => none
+    | some (m, _) => some m
+
+/-- the tree's `try_from_reader`: which of the two is decided by the translator (`flag`) -/
+def parseCk {Mat} (A : KeyAlg Mat) (ver : Byte) (bs : Bytes) : Option Mat :=
+  if Gen.fixD8eChecksumOverStoredOctets = 1 then parseCkStored A ver bs else parseCkReencoded A ver bs
 
 /-- `PlainSecretParams::to_writer` -/
 def serPlain {Mat} (A : KeyAlg Mat) (ver : Byte) (m : Mat) : Bytes :=
